@@ -473,8 +473,11 @@ class The(ResultQuantifier[T]):
 
     def evaluate(self) -> TypingUnion[Iterable[T], T, UnificationDict]:
         try:
-            result = self._evaluate_()
-            return self._process_result_(result)
+            # like an(...).evaluate(), evaluate with symbolic mode off so that predicates and constructors in the
+            # query are executed and not turned into new expressions when called inside a symbolic_mode block.
+            with symbolic_mode(mode=None):
+                result = self._evaluate_()
+                return self._process_result_(result)
         finally:
             # also when no solution or multiple solutions were found, or user code raised.
             self._reset_cache_()
